@@ -62,8 +62,11 @@ def Op.admissible (w : World) : Op → Bool
     c.cf.length == (w s).dim && ((w s).nnc || c.eps == 0)
   | .addGenerator s k g =>
     g.cf.length == (w s).dim && ((w s).nnc || k != .cpoint) && (!(w s).st.empty || k == .point)
-  | .affineImage s v e den | .affinePreimage s v e den | .generalizedAffineImage s v _ e den =>
+  | .affineImage s v e den | .affinePreimage s v e den =>
     v < (w s).dim && e.coeffs.length == (w s).dim && den != 0
+  | .generalizedAffineImage s v r e den =>
+    -- the strict relation symbols (`minimize()` in the middle, every point split) are not part of the model
+    v < (w s).dim && e.coeffs.length == (w s).dim && den != 0 && (r == .le || r == .eq || r == .ge)
   | .removeDims s vars => vars.all (· < (w s).dim) && vars.Pairwise (· < ·)
   | .removeHigher s nd => nd ≤ (w s).dim
   | .unconstrain s vars => vars.all (· < (w s).dim) && vars.Pairwise (· < ·)
